@@ -6,6 +6,9 @@ package sim
 
 import (
 	"context"
+	"crypto/tls"
+	"io"
+	"log"
 	"net"
 	"net/http"
 	"sync"
@@ -20,6 +23,7 @@ var (
 	hostsMu  sync.RWMutex
 	hosts    = map[string]http.Handler{}
 	dialHook func(addr string) error
+	tlsHosts = map[string]*bufconn.Listener{}
 )
 
 // SetDialHook installs a function consulted on every dial (fault injection at connection level).
@@ -41,6 +45,12 @@ func initNet() {
 				if err := h(addr); err != nil {
 					return nil, err
 				}
+			}
+			hostsMu.RLock()
+			tl := tlsHosts[addr]
+			hostsMu.RUnlock()
+			if tl != nil {
+				return tl.DialContext(ctx)
 			}
 			return netLis.DialContext(ctx)
 		}
@@ -77,4 +87,26 @@ func UnregisterHost(host string) {
 	hostsMu.Lock()
 	delete(hosts, host)
 	hostsMu.Unlock()
+}
+
+// RegisterTLSHost serves HTTPS with the given certificate at addr ("name:443") in the simulated network.
+func RegisterTLSHost(addr string, cert tls.Certificate) {
+	initNet()
+	hostsMu.Lock()
+	defer hostsMu.Unlock()
+	if _, ok := tlsHosts[addr]; ok {
+		return
+	}
+	l := bufconn.Listen(1 << 16)
+	tlsHosts[addr] = l
+	srv := &http.Server{
+		Handler: http.HandlerFunc(func(w http.ResponseWriter, r *http.Request) {
+			w.Header().Set("Connection", "close")
+			_, _ = w.Write([]byte("ok"))
+		}),
+		TLSConfig:         &tls.Config{Certificates: []tls.Certificate{cert}},
+		ReadHeaderTimeout: 30 * time.Second,
+		ErrorLog:          log.New(io.Discard, "", 0),
+	}
+	go func() { _ = srv.ServeTLS(l, "", "") }()
 }
